@@ -19,6 +19,7 @@ Definition enc_obs (o : obs) : Z :=
   | OCalled Plain => 4
   | OCalled Checked => 5
   | OCalled CallRaises => 6
+  | OUnspec => 9             (* specification only: nothing is demanded *)
   end.
 
 Definition dk (n : Z) : dkind :=
@@ -27,28 +28,38 @@ Definition dk (n : Z) : dkind :=
   | 4 => DTraceClass | 5 => DTimerClass | _ => DForAllMethods
   end.
 
+Definition dsrc_of (kind x : Z) : dsrc := match kind with 0 => Direct (dk x) | _ => Kept (Z.to_nat x) end.
+
 (* ops: [0; v] setenv (v: 0 -> "0", 1 -> "1", 2 -> "2", 3 -> "", 4 -> "true"), [1] unsetenv, [2] enable, [3] disable,
    [4; d; ...] decorate (further entries describe the target for the implementation worker; the model, like the
    statement, does not depend on them), [5; i] call, [6; d; ...] create a decorator object, [7; k; ...] apply the k-th
-   created decorator object to a fresh target *)
+   created decorator object to a fresh target,
+   [8; i; w; 0; d; ...] / [8; i; w; 1; k] decorate again (directly with d / with the k-th created decorator object) the object
+   that was given when object #i was decorated (w = 0) or object #i itself (w = 1),
+   [9; i; 0; d; ...] / [9; i; 1; k] define a fresh subclass of object #i and decorate it *)
 Definition dec_op (l : list Z) : op :=
   match l with
   | [0; v] => OSetenv (match v with 0 => "0" | 1 => "1" | 2 => "2" | 3 => "" | _ => "true" end)%string
   | [1] => OUnsetenv
   | [2] => OEnable
   | [3] => ODisable
-  | 4 :: d :: _ => ODecorate (dk d) 0
+  | 4 :: d :: _ => ODecorate (dk d)
   | [5; i] => OCall (Z.to_nat i)
   | 6 :: d :: _ => OCreate (dk d)
-  | 7 :: k :: _ => OApply (Z.to_nat k) 0
+  | 7 :: k :: _ => OApply (Z.to_nat k)
+  | 8 :: i :: w :: kind :: x :: _ => ORedecorate (dsrc_of kind x) (Z.to_nat i) (negb (Z.eqb w 0))
+  | 9 :: i :: kind :: x :: _ => OSubDecorate (dsrc_of kind x) (Z.to_nat i)
   | _ => OUnsetenv
   end.
 
 Definition init_env (v : Z) : envv :=
   match v with 0 => Val "0" | 1 => Val "1" | 2 => Val "2" | 3 => Val "" | 4 => Val "true" | _ => Unset end%string.
 
+Definition init_state (e : envv) : state := {| env := e; heap := []; objs := []; decos := [] |}.
+Definition init_sstate (e : envv) : sstate := {| s_env := e; s_beh := []; s_objs := []; s_decos := [] |}.
+
 (* model observations ++ [-1] ++ spec observations *)
 Definition eval_case (init : Z) (h : list (list Z)) : list Z :=
   let ops := map dec_op h in
-  map enc_obs (snd (run_ops the_model {| env := init_env init; objs := []; decos := [] |} ops))
-  ++ [-1] ++ map enc_obs (snd (spec_run {| s_env := init_env init; s_objs := []; s_decos := 0%nat |} ops)).
+  map enc_obs (snd (run_ops the_model (init_state (init_env init)) ops))
+  ++ [-1] ++ map enc_obs (snd (spec_run (init_sstate (init_env init)) ops)).
